@@ -762,6 +762,17 @@ class Lexer:
             )
 
         logger.debug(f"JSON: {json_type}({json_path})")
+        for body_token in command[3:-1]:
+            if body_token.token_type in {
+                TokenType.PAREN_CURLY,
+                TokenType.PAREN_SQUARE,
+            }:
+                raise JMCSyntaxException(
+                    "Expected semicolon(;) after JSON content",
+                    body_token,
+                    tokenizer,
+                    col_length=True,
+                )
         json_content = command[-1].string
         if json_path in self.datapack.jsons:
             if json_path not in self.datapack.defined_file_pos:
